@@ -8,4 +8,4 @@ git -C /repo apply "$P" || { echo "patch does not apply"; exit 2; }
 for id in "$@"; do
   ./check "$id" --tier quick 2>&1 | grep -E "VIOLATION|KNOWN|\[check\]" | cut -c1-260
 done
-git -C /repo checkout -- . ; git -C /verif checkout -- evidence ; git -C /repo status --short | head -3
+git -C /repo checkout -- . ; git -C /repo clean -fdq -- src ; git -C /verif checkout -- evidence ; git -C /repo status --short | head -3
